@@ -245,6 +245,9 @@ class Check(object):
         for key, (f, n) in sorted(self.known_hits.items()):
             print("KNOWN-FINDING: property=%s %s [%d occurrences this run; key=%s]" %
                   (self.prop, f["what"], n, f["key"]))
+        import glob
+        for old in glob.glob(os.path.join(outdir, self.tier + "-*.json")):     # replay files of earlier runs of this tier
+            os.remove(old)
         # one VIOLATION line per distinct key (first occurrence is the replay file), with its count
         bykey = {}
         for key, what, replay in self.violations:
